@@ -141,10 +141,10 @@ theorem filter_skip {J : AJournal} {e e' : Int} (hle : e ≤ e')
 /-! ### `frameOK` under journal changes -/
 
 /-- old frames stay `frameOK` when application rows keep (number, payload) and every other row of the new
-journal is an old row, a session row, or numbered at or above the old counter -/
-theorem frameOK_mono {J J' : AJournal} {o o' : Int} {f : AFrame} (h : frameOK J o f) (ho : o ≤ o')
+journal is an old row, a session row, numbered at or above the old counter, or numbered below the frame -/
+theorem frameOK_mono' {J J' : AJournal} {o o' : Int} {f : AFrame} (h : frameOK J o f) (ho : o ≤ o')
     (hk : ∀ n p, (n, some p) ∈ J → (n, some p) ∈ J')
-    (hr : ∀ r ∈ J', r ∈ J ∨ r.2 = none ∨ o ≤ r.1) : frameOK J' o' f := by
+    (hr : ∀ r ∈ J', r ∈ J ∨ r.2 = none ∨ o ≤ r.1 ∨ r.1 < f.seq) : frameOK J' o' f := by
   obtain ⟨h1, h2, h3⟩ := h
   refine ⟨h1, by omega, ?_⟩
   cases hkind : f.kind with
@@ -152,31 +152,52 @@ theorem frameOK_mono {J J' : AJournal} {o o' : Int} {f : AFrame} (h : frameOK J 
   | gapFill nw =>
     simp only [hkind] at h3 ⊢
     refine ⟨h3.1, by omega, fun r hr' ha hb => ?_⟩
-    rcases hr r hr' with h | h | h
+    rcases hr r hr' with h | h | h | h
     · exact h3.2.2 r h ha hb
     · exact h
+    · omega
     · omega
   | logon =>
     simp only [hkind] at h3 ⊢
     intro r hr' he
-    rcases hr r hr' with h | h | h
+    rcases hr r hr' with h | h | h | h
     · exact h3 r h he
     · exact h
+    · omega
     · omega
   | logout =>
     simp only [hkind] at h3 ⊢
     intro r hr' he
-    rcases hr r hr' with h | h | h
+    rcases hr r hr' with h | h | h | h
     · exact h3 r h he
     · exact h
+    · omega
     · omega
   | resend b =>
     simp only [hkind] at h3 ⊢
     intro r hr' he
-    rcases hr r hr' with h | h | h
+    rcases hr r hr' with h | h | h | h
     · exact h3 r h he
     · exact h
     · omega
+    · omega
+
+theorem frameOK_mono {J J' : AJournal} {o o' : Int} {f : AFrame} (h : frameOK J o f) (ho : o ≤ o')
+    (hk : ∀ n p, (n, some p) ∈ J → (n, some p) ∈ J')
+    (hr : ∀ r ∈ J', r ∈ J ∨ r.2 = none ∨ o ≤ r.1) : frameOK J' o' f :=
+  frameOK_mono' h ho hk fun r hr' => by
+    rcases hr r hr' with h | h | h
+    · exact Or.inl h
+    · exact Or.inr (Or.inl h)
+    · exact Or.inr (Or.inr (Or.inl h))
+
+/-- rows numbered below the frame may be prepended -/
+theorem frameOK_prepend {P N : AJournal} {o : Int} {f : AFrame} (h : frameOK N o f)
+    (hp : ∀ r ∈ P, r.1 < f.seq) : frameOK (P ++ N) o f :=
+  frameOK_mono' h (Int.le_refl _) (fun _ _ hm => List.mem_append_right _ hm) fun r hr => by
+    rcases List.mem_append.1 hr with h | h
+    · exact Or.inr (Or.inr (Or.inr (hp r h)))
+    · exact Or.inl h
 
 /-- the sender of a direction moves from `(o, J)` to `(o', J')`, writing `wr`; `ext` = new application rows -/
 structure SendStep (o : Int) (J : AJournal) (o' : Int) (J' : AJournal) (wr : List AFrame)
